@@ -252,6 +252,16 @@ func (s *Sim) curTask(p *Proc) *Task {
 	return t
 }
 
+// Hot marks the task of ctx as having just met something unusual (a cache that
+// misses an existing object): like after a fault, its next request is more
+// likely to be faulted, so that recovery paths needing two anomalies in a row
+// are reached.
+func (s *Sim) Hot(ctx context.Context) {
+	if t := TaskFrom(ctx); t != nil {
+		t.lastFaulted = true
+	}
+}
+
 // CurrentTaskID returns the ID of the task the calling goroutine runs as (0: none).
 func (s *Sim) CurrentTaskID() int {
 	id := verifGoID()
